@@ -57,24 +57,38 @@ func c09Scenarios() []*engine.SScenario {
 		sort.Strings(dig)
 		return v, fmt.Sprint(dig)
 	}
-	two := &engine.SScenario{Name: "two-peers-bind-same-feature", Run: func(cfg rt.Config) rt.Outcome {
-		var viol []string
-		var dig string
-		res := rt.Execute(cfg, func() {
-			w := stdWorld(false, "A", "B")
-			a, b := w.Peers["A"], w.Peers["B"]
-			da := a.BindCall(world.FAddr("dA", []uint{1}, 1), srv(1), lc)
-			db := b.BindCall(world.FAddr("dB", []uint{1}, 1), srv(1), lc)
-			m := w.Mark()
-			rt.BeginExplore()
-			rt.Go(func() { a.Deliver(da) })
-			rt.Go(func() { b.Deliver(db) })
-			rt.WaitIdle()
-			rt.JoinFinished()
-			viol, dig = judge(w, m, nil2(res0), map[string][]uint64{"A": {uint64(*da.Header.MsgCounter)}, "B": {uint64(*db.Header.MsgCounter)}}, 0)
-		})
-		return rt.Outcome{Res: res, Violations: append(viol, panicsAndDeadlocks(res)...), Digest: dig}
-	}}
+	mkTwo := func(name string, devA, devB bool) *engine.SScenario {
+		return &engine.SScenario{Name: name, Run: func(cfg rt.Config) rt.Outcome {
+			var viol []string
+			var dig string
+			res := rt.Execute(cfg, func() {
+				w := stdWorld(false, "A", "B")
+				a, b := w.Peers["A"], w.Peers["B"]
+				// the device parts of the addresses are optional: requests with and without them denote the same features
+				addr := func(p string, withDev bool) (*model.FeatureAddressType, *model.FeatureAddressType) {
+					if withDev {
+						return world.FAddr("d"+p, []uint{1}, 1), srv(1)
+					}
+					return world.FAddr("", []uint{1}, 1), world.FAddr("", []uint{1}, lLCServer)
+				}
+				ca, sa := addr("A", devA)
+				cb, sb := addr("B", devB)
+				da := a.BindCall(ca, sa, lc)
+				db := b.BindCall(cb, sb, lc)
+				m := w.Mark()
+				rt.BeginExplore()
+				rt.Go(func() { a.Deliver(da) })
+				rt.Go(func() { b.Deliver(db) })
+				rt.WaitIdle()
+				rt.JoinFinished()
+				viol, dig = judge(w, m, nil2(res0), map[string][]uint64{"A": {uint64(*da.Header.MsgCounter)}, "B": {uint64(*db.Header.MsgCounter)}}, 0)
+			})
+			return rt.Outcome{Res: res, Violations: append(viol, panicsAndDeadlocks(res)...), Digest: dig}
+		}}
+	}
+	two := mkTwo("two-peers-bind-same-feature", true, true)
+	twoB := mkTwo("two-peers-bind-same-feature (B omits the device parts)", true, false)
+	twoAB := mkTwo("two-peers-bind-same-feature (both omit the device parts)", false, false)
 	three := &engine.SScenario{Name: "unbind-rebind-vs-bind", Run: func(cfg rt.Config) rt.Outcome {
 		var viol []string
 		var dig string
@@ -118,7 +132,7 @@ func c09Scenarios() []*engine.SScenario {
 		})
 		return rt.Outcome{Res: res, Violations: append(viol, panicsAndDeadlocks(res)...), Digest: dig}
 	}}
-	return []*engine.SScenario{two, three, twoFeat}
+	return []*engine.SScenario{two, twoB, twoAB, three, twoFeat}
 }
 
 var res0 = &rt.Result{}
